@@ -69,6 +69,23 @@ func (m *C14SliceGCMonitor) AfterPass(r *Runner, pv *PassView) error {
 
 func init() {
 	// a third party squats the name of a slice PKO deleted earlier, with other content and no owner
+	// tpDeletePhase: a third party deletes one of the existing ObjectSetPhases (I = which): the ObjectSet re-creates it
+	extraOps["tpDeletePhase"] = func(r *Runner, st Step) error {
+		keys := append(r.W.ListKeys(engine.PKOGroup, "ObjectSetPhase"), r.W.ListKeys(engine.PKOGroup, "ClusterObjectSetPhase")...)
+		if len(keys) == 0 {
+			return nil
+		}
+		k := keys[mod(st.I, len(keys))]
+		r.W.ActAs("thirdparty", func(c client.Client) {
+			if o := r.W.Store.Peek(k); o != nil {
+				if c.Delete(r.W.Ctx, engine.U(o)) == nil {
+					r.Labels["phase-object-deleted-by-third-party"] = true
+					r.Labels["drift-changed-state"] = true
+				}
+			}
+		})
+		return nil
+	}
 	// tpDeleteSlice: a third party deletes one of the existing ObjectSlices (I = which)
 	extraOps["tpDeleteSlice"] = func(r *Runner, st Step) error {
 		keys := append(r.W.ListKeys(engine.PKOGroup, "ObjectSlice"), r.W.ListKeys(engine.PKOGroup, "ClusterObjectSlice")...)
